@@ -247,3 +247,27 @@ impl Drop for Puppeteer {
         // stuck threads are leaked (they are blocked inside the code under test)
     }
 }
+
+impl Puppeteer {
+    /// Waits until thread `t` is no longer running on its own (it was blocked and has been woken):
+    /// returns where it stopped. Does not grant anything.
+    pub fn settle(&self, t: usize, timeout: Duration) -> StepResult {
+        let mut g = self.inner.m.lock().unwrap();
+        let deadline = Instant::now() + timeout;
+        while g.status[t] == Status::Running {
+            let now = Instant::now();
+            if now >= deadline {
+                return StepResult::Blocked;
+            }
+            let (g2, _) = self.inner.cv.wait_timeout(g, deadline - now).unwrap();
+            g = g2;
+        }
+        match g.status[t] {
+            Status::AtPoint => {
+                let (n, a) = g.last_point[t].clone().unwrap();
+                StepResult::AtPoint(n, a)
+            }
+            _ => StepResult::Done(g.result[t].clone().unwrap_or(Value::Null)),
+        }
+    }
+}
